@@ -3,6 +3,9 @@
 (* refinement of the observable specification PipelineObs.                                  *)
 EXTENDS PipelineClient
 IdsDef == 1..3
+Ids2 == 1..2
+KindDO == [i \in Ids2 |-> IF i = 2 THEN "do" ELSE "deadline"]
+KindDD == [i \in Ids2 |-> "deadline"]
 KindDDO == [i \in IdsDef |-> IF i = 3 THEN "do" ELSE "deadline"]
 KindDOO == [i \in IdsDef |-> IF i = 1 THEN "deadline" ELSE "do"]
 KindDDD == [i \in IdsDef |-> "deadline"]
